@@ -68,4 +68,8 @@ func (c *memberEventCoalescer) Flush(outCh chan<- Event) {
 	for _, event := range events {
 		outCh <- *event
 	}
+
+	// Start the next quantum with a clean slate, otherwise a member's last
+	// event is considered again at every later flush
+	c.latestEvents = make(map[string]coalesceEvent)
 }
